@@ -67,7 +67,9 @@ package ghprovider
 //@   at_call Clone requires $0 == based.0
 //@   at_call NewTemplateLoader requires $0 == cloned.0
 //@   ensures err == nil && old(has(provider.layouts, name)) ==> layoutTemplate == old(provider.layouts[name])
-//@   ensures err == nil && !old(has(provider.layouts, name)) ==> layoutTemplate == cloned.0 || layoutTemplate == based.0
+// (html/template: a template that was executed cannot be cloned any more, so what is handed
+// out must never be the object a later request clones from: always a fresh clone)
+//@   ensures err == nil && !old(has(provider.layouts, name)) ==> layoutTemplate == cloned.0 && cloned.1 == nil
 //@   ensures err == nil && !old(has(provider.layouts, name)) && provider.isCached && has(provider.layouts, name) ==> provider.layouts[name] == layoutTemplate
 //@   ensures !provider.isCached || err != nil ==> mapAt(provider.layouts, ref(provider.layouts), 0) == old(mapAt(provider.layouts, ref(provider.layouts), 0))
 //@   ensures foralls(k, old(has(provider.layouts, k)) ==> has(provider.layouts, k) && provider.layouts[k] == old(provider.layouts[k]))
@@ -85,9 +87,9 @@ package ghprovider
 //@   at_call Clone requires $0 == laid.0
 //@   at_call NewTemplateLoader requires $0 == cloned.0
 //@   ensures err == nil && old(has(provider.views, key)) ==> viewTemplate == old(provider.views[key])
-//@   ensures err == nil && !old(has(provider.views, key)) ==> viewTemplate == cloned.0 || viewTemplate == laid.0
+//@   ensures err == nil && !old(has(provider.views, key)) ==> viewTemplate == cloned.0 && cloned.1 == nil
 //@   ensures err == nil && !old(has(provider.views, key)) && provider.isCached ==> has(provider.views, key) && provider.views[key] == viewTemplate
 //@   ensures !provider.isCached || err != nil ==> mapAt(provider.views, ref(provider.views), 0) == old(mapAt(provider.views, ref(provider.views), 0))
 //@   ensures foralls(k, old(has(provider.views, k)) ==> has(provider.views, k) && provider.views[k] == old(provider.views[k]))
 //@   trace_ensures old(has(provider.views, key)) : ^$
-//@   trace_ensures !old(has(provider.views, key)) && err == nil : (^LAYOUT CLONE LOADER WALK $|^LAYOUT $)
+//@   trace_ensures !old(has(provider.views, key)) && err == nil : ^LAYOUT CLONE LOADER WALK $
